@@ -211,12 +211,30 @@ def _entry_calls(slot, bad, tags, fields, variant):
 
         return {key: f}
 
+    def kw_callable_inplace(returns):
+        # the callable edits the mapping it was handed and returns that same object / nothing at all
+        def mk():
+            bad_map, key = (tags, "tags") if tags is not None else (fields, "fields")
+
+            def f(old):
+                try:
+                    old.update(bad_map)
+                except Exception:
+                    pass
+                return old if returns == "arg" else None
+
+            return {key: f}
+
+        return mk
+
     styles = [("static", kw_static), ("callable", kw_callable)]
     if tags is not None or fields is not None:
         styles.append(("callable", kw_callable_merged))
         styles.append(("callable", kw_callable_stateful))
+        styles.append(("callable", kw_callable_inplace("arg")))
+        styles.append(("callable", kw_callable_inplace("none")))
     for si, (style, mk) in enumerate(styles):
-        sv = v + ("+old" if si == 2 else "+stateful" if si == 3 else "")
+        sv = v + ("+old" if si == 2 else "+stateful" if si == 3 else "+inplace" if si == 4 else "+inplace-none" if si == 5 else "")
         yield f"update({style}){sv}", lambda db, mk=mk: db.update(Q, **mk())
         yield f"update_all({style}){sv}", lambda db, mk=mk: db.update_all(**mk())
         yield f"handle.update({style}){sv}", lambda db, mk=mk: db.measurement("m0").update(Q, **mk())
@@ -293,7 +311,9 @@ def run(res, tier, seed, shard, nshards):
                     call(db)
                 except Exception as e:
                     exc = e
-            res.count(f"entry.{label.split('#')[0].split('+old')[0].split('+stateful')[0]}")
+            res.count(f"entry.{label.split('#')[0].split('+old')[0].split('+stateful')[0].split('+inplace')[0]}")
+            if "+inplace" in label:
+                res.count("inplace_editing_callables")
             res.count("raised" if exc is not None else "returned")
             res.seen((label, slot, vname, cfg))
             if len(res.samples) < 5 and (res.evaluations % 97 == 1):
@@ -345,7 +365,9 @@ def run(res, tier, seed, shard, nshards):
                     n += 1
                     # a falsy wrong value given directly as an update argument means "argument not given"
                     falsy_arg = (not bad) and label.startswith(("update", "handle.update", "insert(", "insert_multiple(")) and "callable" not in label and slot in ("time", "measurement")
-                    one_case(label, slot, vname, call, must_raise=not falsy_arg)
+                    # a callable that edits its argument and returns None: rejecting the None or ignoring the edit are
+                    # both fine - what is demanded is only that nothing invalid is stored
+                    one_case(label, slot, vname, call, must_raise=not falsy_arg and "+inplace-none" not in label)
         for label, attr, vname, call in whole_container_calls():
             one_case(label, attr, vname, call, must_raise=True)
         for label, attr, vname, call in pair_list_calls():
@@ -354,6 +376,7 @@ def run(res, tier, seed, shard, nshards):
     res.require("rejected_with_ValueError_or_TypeError")
     res.require("points_read_back_checked")
     res.require("entry.update(callable)")
+    res.require("inplace_editing_callables")
     res.require("entry.handle.update_all(callable)")
     res.assumptions += [
         "invalid data is supplied through the public API (constructor, property setters, method arguments, callables); "
